@@ -1043,22 +1043,27 @@ pub fn run(thorough: bool) -> i32 {
                 })
                 .collect()
         };
-        let mut pairs: Vec<(u32, u32, u32)> = Vec::new();
+        // ... the third instance (listing the completed object again) expires later than / earlier than / together
+        // with the first one
+        let mut pairs: Vec<(u32, u32, u32, u64)> = Vec::new();
         for a in &ids {
             for b in &ids {
                 for c in [0u32, 0xFFFFF, 3] {
-                    pairs.push((*a, *b, c));
+                    for e3 in [9000u64, 3700, 7200] {
+                        pairs.push((*a, *b, c, e3));
+                    }
                 }
             }
         }
         let fu3 = fu.clone();
-        let res = par_map(&pairs, move |_, (a, b, c)| {
+        let res = par_map(&pairs, move |_, (a, b, c, e3)| {
             let mut gg = G::default();
             let mut ff: Found = Default::default();
             let exp2 = unix_to_ntp_secs(EPOCH_2027 + 9000).to_string();
             let f1 = fdt_packets(TSI, *a, mk("5", &exp_ok).as_bytes(), 8192, None, None);
             let f2 = fdt_packets(TSI, *b, mk("6", &exp2).as_bytes(), 8192, None, None);
-            let f3 = fdt_packets(TSI, *c, mk("5", &exp2).as_bytes(), 8192, None, None);
+            let exp3 = unix_to_ntp_secs(EPOCH_2027 + *e3).to_string();
+            let f3 = fdt_packets(TSI, *c, mk("5", &exp3).as_bytes(), 8192, None, None);
             let mut h: Vec<&[u8]> = Vec::new();
             h.extend(f1.iter().map(|p| &p[..]));
             h.extend(f2.iter().map(|p| &p[..]));
